@@ -326,13 +326,32 @@ func (f *fnSpec) buildBuilt(extra ...am.Arg) error {
 		}
 		for j, l := range f.Outs {
 			var dst *am.Value
-			if l.Name != "" {
+			switch {
+			case l.Name != "":
 				dst = out.Named(strings.ToLower(l.Name))
-			} else {
-				dst = out.Typed(tyOf(l.Ty)) // type-only outputs are unique per type (well-formedness)
+			default:
+				same := 0
+				for _, o := range f.Outs {
+					if o.Name == "" && o.Ty == l.Ty {
+						same++
+					}
+				}
+				dst = out.Typed(tyOf(l.Ty))
+				if same > 1 {
+					// two type-only outputs of one type (they differ in subtype): only the lookup by type and
+					// subtype tells them apart (it may hit a named value of that type and subtype instead)
+					if d := out.TypedSubtype(tyOf(l.Ty), l.Sub); d != nil && d.Name == "" {
+						dst = d
+					}
+				}
 			}
 			if dst != nil {
 				dst.Value = vals[j]
+				// a callback usually stores what reflect.ValueOf gives it: for an interface-typed output that is
+				// a value of the concrete dynamic type, not of the declared type
+				if v := vals[j]; v.Kind() == reflect.Interface && !v.IsNil() && (f.ID+j)%2 == 0 {
+					dst.Value = v.Elem()
+				}
 			}
 		}
 		return nil
